@@ -227,10 +227,11 @@ ObsMarks(pre, mk, kind) ==
              (n \in DOMAIN mk /\ mk[n] # NoServer /\ mk[n] = pre.apps[n].server)]]]
 
 CycleFail(rawpre, line, rawpost) ==
-  LET q == Flatten(line.queues)
-      pl == line.placement
+  LET pl == line.placement
       pre == IF aux.decl.on THEN Overlay(aux.decl, rawpre) ELSE OverlayL2(line, rawpre)
-      post == IF aux.decl.on THEN Overlay(aux.decl, rawpost) ELSE OverlayL2(line, rawpost) IN
+      post == IF aux.decl.on THEN Overlay(aux.decl, rawpost) ELSE OverlayL2(line, rawpost)
+      opq == ObsPre(pre, aux, line, Traces[t])
+      q == Flatten([k \in DOMAIN line.queues |-> FixQueue(opq, line.queues[k])]) IN
   F("C01.cap", C01cap(post)) \cup F("C01.free", C01free(post))
   \cup F("C01.single", C01single(post)) \cup F("C01.views", C01views(post))
   \cup F("C03.post", C03post(post)) \cup F("C03.assign", C03assign(ObsLease(post, aux.lease), pl))
